@@ -5,7 +5,12 @@ EXTENDS Nurbs
 
 CONSTANTS Acts, MaxP, MaxExtra, MemoN, GeoRich
 
-MCInit == {[a |-> NoObj]}
+(* the scenarios of this module do not live in the heap; the heap only carries a shard number so that  *)
+(* TLC's workers share the enumeration                                                                 *)
+NShards == 16
+MCInit == {[a |-> NoObj, s |-> [kind |-> "shard", i |-> i]] : i \in 0..(NShards - 1)}
+HashPL(c) == (c.X[1][1] + 3 * c.Y[1][1] + 5 * c.X[Len(c.X)][1] + 7 * c.Y[Len(c.Y)][1] + 11 * Len(c.X)) % NShards
+Mine(h, c) == HashPL(c) = h["s"].i
 
 WeightSeqs == SeqsUpTo({One, Two, Half}, 3) \ {<<>>}
 
@@ -22,8 +27,15 @@ QueryPts == {<<Q(x, 2), Q(y, 2)>> : x \in (IF GeoRich THEN -3..11 ELSE {-2, 0, 1
 Others == {PL(<<1, 1>>, <<-1, 4>>), PL(<<-1, 5>>, <<1, 1>>), PL(<<-1, 3>>, <<-1, 4>>), PL(<<5, 7>>, <<5, 6>>),
            PL(<<0, 4, 0>>, <<3, 1, -1>>), PL(<<5, 6>>, <<0, 3>>), PL(<<1, 3, 2>>, <<1, 2, -2>>), PL(<<4, -1>>, <<4, 3>>)}
 
+(* all segments between points of a small grid placed away from the origin (equal extents, axis-parallel   *)
+(* pieces, negative coordinates all occur) *)
+GridPts == {<<x, y>> : x \in {-3, -1, 1, 3}, y \in (IF GeoRich THEN {-3, -2, 0, 2} ELSE {-2, 0, 2})}
+GridSegs == {PL(<<p[1], q[1]>>, <<p[2], q[2]>>) : p, q \in GridPts} \ {PL(<<p[1], p[1]>>, <<p[2], p[2]>>) : p \in GridPts}
+Zigzags == {PL(<<-3, -1, 1, 3>>, <<-2, 2, -2, 2>>), PL(<<-3, 3, -3, 3>>, <<-3, -1, 1, 3>>), PL(<<1, 3, 1, 3>>, <<-3, -3, -1, -1>>)}
+
 MCArgs(name, h, dep) ==
   IF name \notin Acts THEN {} ELSE
+  IF name \in {"KvGen", "MemoRequest"} /\ h["s"].i # 0 THEN {} ELSE
   CASE name = "KvGen" ->
          {[obj |-> "a", kind |-> "bezier", p |-> p, n |-> p + 1, w |-> <<>>] : p \in 0..MaxP}
          \cup {[obj |-> "a", kind |-> k, p |-> p, n |-> p + 1 + e, w |-> <<>>] :
@@ -31,11 +43,15 @@ MCArgs(name, h, dep) ==
          \cup {[obj |-> "a", kind |-> "weight", p |-> p, n |-> 0, w |-> w] : p \in 0..MaxP, w \in WeightSeqs}
     [] name = "MemoRequest" ->
          {[fn |-> f, n |-> n] : f \in Fns, n \in 1..MemoN} \ {[fn |-> f, n |-> 1] : f \in {"nodes_closed", "w_closed"}}
-    [] name = "GeoLength" -> {[curve |-> c] : c \in Lines}
+    [] name = "GeoLength" -> {[curve |-> c] : c \in {x \in Lines : Mine(h, x)}}
     [] name = "GeoProject" ->
-         {[curve |-> c, px |-> q[1], py |-> q[2]] : c \in Lines, q \in QueryPts}
+         {[curve |-> c, px |-> q[1], py |-> q[2]] : c \in {x \in Lines : Mine(h, x)}, q \in QueryPts}
+         \cup {[curve |-> c, px |-> Q(x, 2), py |-> Q(y, 2)] : c \in {x \in Zigzags \cup (IF GeoRich THEN GridSegs ELSE {}) : Mine(h, x)},
+                                                                  x \in {-9, -4, 0, 1, 5, 8}, y \in {-7, -2, 0, 3, 6}}
     [] name = "GeoIntersect" ->
-         {[A |-> A, B |-> B] : A \in Lines, B \in {x \in Others \cup Lines : TRUE}}
+         {[A |-> A, B |-> B] : A \in {x \in Lines : Mine(h, x)}, B \in {x \in Others \cup Lines : TRUE}}
+         \cup {[A |-> A, B |-> B] : A \in {x \in GridSegs : Mine(h, x)}, B \in GridSegs}
+         \cup {[A |-> A, B |-> B] : A \in {x \in Zigzags : Mine(h, x)}, B \in GridSegs \cup Zigzags}
     [] OTHER -> {}
 
 (* C20 generator sanity: every generated pair is in the guaranteed class (no end-point touches,   *)
